@@ -54,6 +54,13 @@ pub fn check(c: &Case) -> Verdict {
     v
 }
 
+/// well-formed pieces that a deserializer skips, merges or trims
+const NOISE: &[&str] = &[
+    "<zz><x>1</x>t</zz>", "<zz>t<x/></zz>", "<zz><x>1</x>\n </zz>", "<zz>\n <x>1</x>\n</zz>", "<zz/>", "<zz a=\"1\"><![CDATA[c]]><q/></zz>", "<zz><zz>t</zz>u</zz>",
+    "<zz xmlns:xsi=\"http://www.w3.org/2001/XMLSchema-instance\" xsi:nil=\"true\">c<x/></zz>", "<u/>", "<us>text<x/></us>",
+    " ", "\n  ", " t", " tail", "\tx ", "t ", " 42", "<![CDATA[ c]]>", "<![CDATA[]]>", "<!-- c -->", "<?pi d?>", " &amp; ", "&#32;", "&#x20;t",
+];
+
 fn cuts_strategy() -> impl Strategy<Value = (u8, Vec<u16>)> {
     (0u8..8, prop::collection::vec(any::<u16>(), 0..8))
 }
@@ -97,6 +104,37 @@ fn run(ctx: &Ctx) {
         }))
     };
     ctx.run_proptest_with("rewritten-valid-documents", ctx.tier.pick(800_000, 8_000_000), rewritten, check);
+    // well-formed noise: unknown subtrees (with text, nested elements, CDATA, xsi:nil) and blank or
+    // blank-led text inserted at token boundaries of valid documents; the value may change or the
+    // document may become invalid for the type — both entry points must still agree
+    let noisy = || {
+        Box::new((any_val(), 0u8..3, prop::collection::vec((any::<u16>(), any::<u16>()), 1..5), prop::collection::vec(super::c15::rw_strategy(), 0..3), cuts_strategy()).prop_map(|(val, level, noise, rws, (sel, rnd))| {
+            let opts = SerOpts { level, indent: None, expand_empty: false, root: None };
+            let mut doc = val.serialize_with(&opts).unwrap_or_else(|_| "<r/>".to_string());
+            for rw in &rws {
+                if let Some(d) = super::c15::apply(val.ty(), &doc, rw) {
+                    doc = d;
+                }
+            }
+            for (at, what) in &noise {
+                let toks = crate::refxml::lex(doc.as_bytes());
+                if toks.is_empty() {
+                    break;
+                }
+                // insert after the first token at the earliest, before the last at the latest
+                let k = 1 + scale(*at, toks.len().saturating_sub(1).max(1));
+                let pos = toks.get(k).map_or(doc.len(), |l| l.start);
+                if !doc.is_char_boundary(pos) {
+                    continue;
+                }
+                let piece = NOISE[scale(*what, NOISE.len())];
+                doc.insert_str(pos, piece);
+            }
+            let cuts = make_cuts(doc.len(), sel, &rnd);
+            Case { ty: val.ty(), input: doc, cuts }
+        }))
+    };
+    ctx.run_proptest_with("valid-documents-with-well-formed-noise", ctx.tier.pick(800_000, 8_000_000), noisy, check);
     let soup = || {
         Box::new((prop::collection::vec(any::<u16>(), 0..14), prop::sample::select(ALL_TYPES.to_vec()), cuts_strategy()).prop_map(|(ws, ty, (sel, rnd))| {
             let input = ws.iter().map(|w| VOCAB[scale(*w, VOCAB.len())]).collect::<Vec<_>>().concat();
